@@ -360,11 +360,18 @@ class MappingCheckOnly(DeserializationMethod):
             raise bad_type(data, dict)
         item_errors: Optional[ErrorDict] = None
         for key, value in data.items():
+            # both the key and the value are checked: their errors are merged
+            error: Optional[ValidationError] = None
             try:
                 self.key_method.deserialize(key)
+            except ValidationError as err:
+                error = err
+            try:
                 self.value_method.deserialize(value)
             except ValidationError as err:
-                item_errors = set_child_error(item_errors, key, err)
+                error = merge_errors(error, err)
+            if error is not None:
+                item_errors = set_child_error(item_errors, key, error)
         validate_constraints(data, self.constraints, item_errors)
         return data
 
@@ -381,12 +388,20 @@ class MappingMethod(DeserializationMethod):
         item_errors: Optional[ErrorDict] = None
         items: dict = {}
         for key, value in data.items():
+            # both the key and the value are deserialized: their errors are merged
+            error: Optional[ValidationError] = None
             try:
-                items[self.key_method.deserialize(key)] = self.value_method.deserialize(
-                    value
-                )
+                new_key = self.key_method.deserialize(key)
             except ValidationError as err:
-                item_errors = set_child_error(item_errors, key, err)
+                error = err
+            try:
+                new_value = self.value_method.deserialize(value)
+            except ValidationError as err:
+                error = merge_errors(error, err)
+            if error is None:
+                items[new_key] = new_value
+            else:
+                item_errors = set_child_error(item_errors, key, error)
         validate_constraints(data, self.constraints, item_errors)
         return items
 
